@@ -3,6 +3,7 @@ package main
 // C16: promql/series against a fake Prometheus backed by the real PromQL engine over a database whose content is known.
 
 import (
+	"regexp"
 	"context"
 	"encoding/json"
 	"fmt"
@@ -48,6 +49,8 @@ type c16Case struct {
 }
 
 const c16Lookback = time.Hour
+
+var c16NoLabelRe = regexp.MustCompile("has `([^`]+)` metric but there are no series with `([^`]+)` label in the last")
 
 func c16DB(cs c16Case, now time.Time) *promeval.DB {
 	db := &promeval.DB{}
@@ -310,6 +313,36 @@ func c16Eval(r *hx.Run, cs c16Case) {
 			r.Violate(hx.Violation{Class: "present-selector-reported", Input: cs, Observed: map[string]any{"selector": vs.String(), "series_now": len(nowRes), "problems": show()},
 				Expected: "a selector that currently returns series is never reported"})
 			return
+		}
+		// (C) beyond the two clauses of the statement, still "verdicts agree with what the server holds": what a verdict says
+		// the server does NOT hold must be true of the database (seeded change C16-dummy-uptime-covers-one-step)
+		for _, p := range mine {
+			text := p.Details
+			for _, d := range p.Diagnostics {
+				text += "\n" + d.Message
+			}
+			if m := c16NoLabelRe.FindStringSubmatch(text); m != nil {
+				held := 0
+				from := now.Add(-c16Lookback).UnixMilli()
+				for _, sr := range db.Series {
+					if sr.Labels.Get("__name__") != m[1] || sr.Labels.Get(m[2]) == "" {
+						continue
+					}
+					for _, sm := range sr.Samples {
+						if sm.T >= from && sm.T <= now.UnixMilli() {
+							held++
+							break
+						}
+					}
+				}
+				r.Count(fmt.Sprintf("claim:no-series-with-label:true=%v", held == 0))
+				if held > 0 {
+					r.Violate(hx.Violation{Class: "verdict-claims-label-never-present-but-server-holds-it", Input: cs,
+						Observed: map[string]any{"selector": vs.String(), "verdict": text, "series_of_the_metric_with_that_label_in_the_window": held},
+						Expected: "no such verdict: the database holds series of the metric with that label inside the lookback window"})
+					return
+				}
+			}
 		}
 		// (B) metric never there, nobody produces it, no exemption => Bug
 		never := classOf[vs.Name] == "never"
